@@ -411,6 +411,16 @@ func (m *mon) attacks(tp template, url string) []attack {
 		if aw := clone(c, tp.msg); setMeta(aw, tp.owner.Bech, X.Bech) && tp.kind != "gov" {
 			if any, err := codectypes.NewAnyWithValue(aw.(gogoproto.Message)); err == nil {
 				out = append(out, attack{name: "foreign-signer-inside-authz-exec-by-" + who, signer: X, msg: &authz.MsgExec{Grantee: X.Bech, Msgs: []*codectypes.Any{any}}})
+				// ... and the same behind two and three levels of wrapping
+				inner := &authz.MsgExec{Grantee: X.Bech, Msgs: []*codectypes.Any{any}}
+				for depth := 2; depth <= 3; depth++ {
+					wrapped, werr := codectypes.NewAnyWithValue(inner)
+					if werr != nil {
+						break
+					}
+					inner = &authz.MsgExec{Grantee: X.Bech, Msgs: []*codectypes.Any{wrapped}}
+					out = append(out, attack{name: fmt.Sprintf("foreign-signer-inside-authz-exec-depth-%d-by-%s", depth, who), signer: X, msg: inner})
+				}
 			}
 		}
 		a2 := clone(c, tp.msg)
